@@ -356,7 +356,7 @@ static void fmtline_eval(uint64_t index, void *ctx) {
         if (r.truncated) V_COUNT("nontrivial", 1); /* the truncation path ran, whatever the verdict */
         if (!bad) {
             count_cut(&r);
-            if (index == 1234567) v_sample("fmtline: %s -> %s", what, show_line(buf, d.amount_written));
+            if ((total == 300 || total == 90) && msglen == 60 && level == 4 && sj == 1 && !supply && df == 1) v_sample("fmtline: %s -> %s", what, show_line(buf, d.amount_written));
         }
     }
     free(buf);
@@ -415,7 +415,7 @@ static void deffmt_eval(uint64_t index, void *ctx) {
             bee_fail("line-exceeds-buffer", "%s: string length %zu exceeds its allocation", what, s->len);
         else if (check_line(s->bytes, s->len, &e, &r) == 0) {
             if (msglen > 0) V_COUNT("nontrivial", 1);
-            if (index == 4321) v_sample("deffmt: %s -> %s", what, show_line(s->bytes, s->len));
+            if (msglen == 30 && level == 3 && sj == 2 && !supply && df == 0) v_sample("deffmt: %s -> %s", what, show_line(s->bytes, s->len));
         }
         aws_string_destroy(s);
     }
@@ -482,7 +482,7 @@ static void noalloc_eval(uint64_t index, void *ctx) {
         struct lx e2 = e;
         e2.level = AWS_LL_INFO, e2.subject = subj_name[1], e2.msg = (const uint8_t *)"tail 7", e2.msglen = 6, e2.what = what2;
         check_line((const uint8_t *)mptr + n1, n2 - n1, &e2, &r);
-        if (msglen == 8200 && level == 2 && sj == 1 && !supply) v_sample("noalloc: %s -> %s", what, show_line((uint8_t *)mptr, n1));
+        if ((msglen == 100 || msglen == 8200) && level == 2 && sj == 1 && !supply) v_sample("noalloc: %s -> %s", what, show_line((uint8_t *)mptr, n1));
     }
     aws_logger_clean_up(&lg);
     if (ga.live_blocks != 0) bee_fail("allocator-imbalance", "%s: %" PRIu64 " block(s) live after clean-up", what, ga.live_blocks);
@@ -725,7 +725,7 @@ static void gate_eval(uint64_t index, void *ctx) {
     V_COUNT("gate_calls_suppressed", rejected);
     V_COUNT("gate_verdicts_flipped_by_level_change", flips);
     if (accepted && rejected && flips) V_COUNT("nontrivial", 1);
-    if (index == 777777) v_sample("gate: %s -> %d line(s), %d suppressed", prog, accepted, rejected);
+    if (index == 77777) v_sample("gate: %s -> %d line(s), %d suppressed", prog, accepted, rejected);
     rig_down(prog);
 }
 
@@ -813,7 +813,7 @@ static void shapes_eval(uint64_t index, void *ctx) {
         bee_fail(writes ? "accepted-call-produced-several-writes" : "accepted-call-produced-no-line", "%s produced %u writes", what, writes);
     else if (check_line(p, n, &e, &r) == 0) {
         if (strchr(shown, '%')) V_COUNT("nontrivial", 1);
-        if (shape == 20 && level == 4 && path == 0) v_sample("shapes: %s -> %s", what, show_line(p, n));
+        if (shape == 20 && level == 4 && path == 0 && variant == 0) v_sample("shapes: %s -> %s", what, show_line(p, n));
         if (ga.live_blocks != R.base_blocks)
             bee_fail("line-string-not-destroyed", "%s: %" PRIu64 " allocator blocks live after the call, %" PRIu64 " before", what, ga.live_blocks,
                      R.base_blocks);
